@@ -175,6 +175,15 @@ def family(t, sd):
     for im, it in enumerate(gen.nested_family()):
         if t == 'thorough' or im % 2 == 0:
             items.append({'model': it['model'], 'style': styles[im % 3]})
+    # satisfiability variants: every sixth model also without an objective (`solve`)
+    import copy as _copy
+    for i, it in enumerate(list(items)):
+        if i % 6 == 3 and it['model']['vars']:
+            src_m = _copy.deepcopy(it['model'])
+            # declare exactly the variables the constraints use (the text door drops unused declarations)
+            mm = gen.mk_model('solve', gen.num(0), src_m['cons'], dict((n, d) for n, d in src_m['vars']))
+            if mm['vars']:
+                items.append(dict(it, model=mm))
     out = []
     for k_, it in enumerate(items):
         m = it['model']
